@@ -254,6 +254,21 @@ CLAIMS = {
         "Consecutive plain delays are merged before comparing strict switches (idle time may be partitioned differently).",
         "DESIGN.md §3 C18",
     ),
+    "C17": (
+        "exploration",
+        "exhaustive grids per class (optional fields default / non-default, every subset of noise types) with == and deep "
+        "field-by-field comparison after the JSON round trip, plus every construction/decoding order of three instances per "
+        "class with deep snapshots of the earlier ones",
+        "704 (quick) cases: 190+ noise models (every subset of the 7 noise types through each activating parameter variant, "
+        "leakage) - active types exactly those set, abstract round trip equal, NoiseModel -> SimConfig -> NoiseModel preserves "
+        "types and every relevant parameter; ~400 virtual devices (12 optional fields: all singles, pairs, all) x 5 channel sets "
+        "(EOM with every optional field non-default, DMM, default noise model, custom ids) + 6 physical variants; registers "
+        "2D/3D x 6 atom orders x 3 id sets x with/without layout, layouts, detuning maps with traps in all 24 orders through a "
+        "sequence; 135 emulation configs (observable sets x evaluation times x initial states x noise models) incl. operators "
+        "with complex coefficients; aliasing for StateRepr / NoiseModel / VirtualDevice / Register in all 6 orders.",
+        "Fields excluded from == by the dataclass (short_description) are not compared; layout subclasses compared by traps+slug.",
+        "DESIGN.md §3 C17",
+    ),
 }
 
 PENDING_REASON = "check not built yet in this round (design in DESIGN.md §3); nothing is claimed for it"
